@@ -4,7 +4,7 @@ import ast
 from .. import tables
 from ..events import calls_in, fi_of_term, find_wrappers
 from ..flow import get_flow, show, strip_sites, subterms
-from ..model import first_line, src_of
+from ..model import AnalysisError, first_line, src_of
 from . import gates, twins, inv, c05, c17, c18, c08
 
 META = {
@@ -13,6 +13,10 @@ META = {
     "not_decided": ["what functools.update_wrapper / inspect.signature preserve (stdlib)"],
     "assumptions": [],
 }
+
+
+# what functools.update_wrapper copies and what the inspect / abc / doctest machinery reads off a callable
+METADATA_ATTRS = ("__signature__", "__text_signature__", "__wrapped__", "__name__", "__qualname__", "__doc__", "__module__", "__annotations__", "__dict__", "__defaults__", "__kwdefaults__", "__code__", "__isabstractmethod__", "__type_params__", "__annotate__")
 
 
 def metadata(run, model, rule="C14.metadata"):
@@ -57,7 +61,31 @@ def metadata(run, model, rule="C14.metadata"):
         for sub in ast.walk(fi.node):
             if isinstance(sub, ast.Delete) and "__wrapped__" in src_of(sub) or (isinstance(sub, ast.Call) and src_of(sub.func) == "delattr" and "__wrapped__" in src_of(sub)):
                 bad = "__wrapped__ is deleted"
-        run.check(bad is None, rule, fi.qual, "functools.update_wrapper(wrapper, <decorated function>) dominates every return of the wrapper", bad or "", fi.loc(upd[0]) if upd else fi.loc())
+        # nothing overrides what update_wrapper copied / what introspection reads off the wrapper
+        for n in flow.cfg.nodes:
+            stores = []
+            for call, c, a in calls_in(n):
+                if isinstance(call.func, ast.Name) and call.func.id == "setattr" and len(call.args) == 3:
+                    stores.append((call.args[0], call.args[1]))
+            if n.kind == "stmt" and isinstance(n.ast, (ast.Assign, ast.AnnAssign, ast.AugAssign)):
+                for tg in (n.ast.targets if isinstance(n.ast, ast.Assign) else [n.ast.target]):
+                    if isinstance(tg, ast.Attribute):
+                        stores.append((tg.value, ast.Constant(value=tg.attr)))
+            for obj, name in stores:
+                ot = strip_sites(flow.term(obj, n))
+                oalts = set(ot[1]) if ot[0] == "phi" else {ot}
+                if not (oalts & wrappers):
+                    continue
+                if not (isinstance(name, ast.Constant) and isinstance(name.value, str)):
+                    nt = strip_sites(flow.term(name, n))  # a module-level constant holding the name
+                    if nt[0] == "const" and nt[1][:1] in ("'", '"'):
+                        name = ast.Constant(value=ast.literal_eval(nt[1]))
+                    else:
+                        raise AnalysisError("%s: an attribute with a computed name is set on the wrapper (%s)" % (fi.qual, first_line(n.stmt)))
+                if name.value in METADATA_ATTRS:
+                    bad = "`%s` is set on the wrapper after update_wrapper: introspection (inspect.signature stops at `__signature__`, doctest / help / abc read the others) no longer sees the decorated function's own metadata" % name.value
+                    upd = (n, None)
+        run.check(bad is None, rule, fi.qual, "functools.update_wrapper(wrapper, <decorated function>) dominates every return of the wrapper; no metadata attribute is overridden afterwards", bad or "", fi.loc(upd[0]) if upd else fi.loc())
 
 
 def single_checker(run, model, rule="C14.single-checker"):
